@@ -14,12 +14,14 @@ def run(ctx):
     common.standard(
         ctx, harness="hC03", extracted="C03_model", driver_dir="C03",
         rule=("non-trivial: at least 2 instances started and min(tokens, ammo) >= 2; distinct = distinct case lines "
-              "(pool configuration: shared/per-instance, discard_overflow, profile, ammo bound, startup profile, shot duration, schedule start offset)"),
+              "(pool configuration: shared/per-instance, discard_overflow, profile, ammo bound, startup profile incl. a first token later than t=0, "
+              "shot duration, schedule start offset, provider Run blocking / returning at once / returning mid-run)"),
         key_fn=key_fn,
         translators=[("gofn-instance", "GoFnInstanceGen.v")],  # core/engine/instance.go instance.Run re-read as IMP syntax (traced)
         # composition theorems L1-L5 (proofs in Proofs/Link*.v) and the bridge instance.Run = model sections
         # (proofs in Proofs/InstanceRunProofs.v, re-checked by make whenever the generated syntax changes), counted as extra obligations
-        bridge_files=["Properties/Links.v", "Properties/Links_conc.v", "Gen/GoFnInstance_bridge.v"],
+        # + the pool level (start loop over the startup schedule + await loop of Model/Pool.v; proofs in Proofs/InstancePoolProofs.v)
+        bridge_files=["Properties/C03_pool.v", "Properties/Links.v", "Properties/Links_conc.v", "Gen/GoFnInstance_bridge.v"],
         trusted=[
             "translator harness/cmd/translate gofn-instance (go/ast -> Lib/Imp.v syntax, traced: every collaborator call recorded in order; closure inlined, "
             "deferred calls placed before the returns, logging dropped, recover() = nil) and the IMP semantics of Lib/Imp.v (Go ints unbounded)",
